@@ -217,7 +217,13 @@ func init() {
 				n, _ := logResultCount(impl)
 				return n > 0 && n < len(t.Base.Recs)
 			},
-			PropertyFails: func(t c19Case, impl, model Sexp) bool { return true },
+			// the algebra is stated on the implementation's own answers: a law broken there is the failing input;
+			// a q|f that merely differs from the model while every law holds is inherited from q's stages or is
+			// about what a filter matches (C01), not about the algebra
+			PropertyFails: func(t c19Case, impl, model Sexp) bool {
+				h := impl.Head()
+				return h == "relation-violated" || h == "panic" || h == "timeout"
+			},
 			Signature: func(t c19Case, impl, model Sexp) string {
 				if impl.Head() == "relation-violated" {
 					return "relation:" + impl.List[1].Atom
